@@ -57,6 +57,16 @@ func (o *overlayer) overlayField(base, overlay reflect.Value) error {
 			base.Set(reflect.New(base.Type().Elem()))
 			return o.overlayStruct(base.Elem(), overlay.Elem())
 		}
+		if base.Type().Elem().Kind() != reflect.Struct {
+			// a pointer to a non-struct was not pointerified: the
+			// pointer itself is the value, replace it as a whole.
+			if !overlay.Type().AssignableTo(base.Type()) {
+				return fmt.Errorf("pointer type %s is not assignable to %s",
+					overlay.Type(), base.Type())
+			}
+			base.Set(overlay)
+			return nil
+		}
 		if ptrify.IsTextUnmarshalerStruct(base.Type().Elem()) {
 			// base is not nil and we're not deep-copying, so we can overwrite the pointer.
 			if overlay.Type().AssignableTo(base.Type()) {
